@@ -2281,7 +2281,10 @@ impl Archive {
             file_info.file_pos
         );
 
-        let mut offset_data = vec![0u8; offset_table_size];
+        // With sector checksums the table has one more entry (end of the checksum sector), encrypted
+        // together with the others. It is read along and only used if the layout turns out standard.
+        let crc_entry = usize::from(file_info.has_sector_crc()) * 4;
+        let mut offset_data = vec![0u8; offset_table_size + crc_entry];
         self.reader.read_exact(&mut offset_data).map_err(|e| {
             log::error!("Failed to read offset table: {}", e);
             log::error!(
@@ -2304,6 +2307,12 @@ impl Archive {
         for _ in 0..=sector_count {
             sector_offsets.push(cursor.read_u32::<LittleEndian>()?);
         }
+        let crc_sector_end = cursor.read_u32::<LittleEndian>().unwrap_or(0);
+        // MPQ layout of sector checksums: the data starts right behind a table of sector_count + 2
+        // entries; the sector behind the last data sector holds one ADLER32 per sector, taken over
+        // the sector as stored (after decryption, before decompression); 0 means "no checksum".
+        let standard_crc_layout =
+            file_info.has_sector_crc() && sector_offsets[0] as usize == offset_table_size + 4;
 
         log::debug!(
             "Sector offsets: first={}, last={}",
@@ -2322,11 +2331,31 @@ impl Archive {
         // tools keep their checksums in an extra, separately compressed sector (first offset
         // (sectors + 2) * 4, last offset below compressed_size): those are not interpreted here.
         let builder_crc_layout = file_info.has_sector_crc()
+            && !standard_crc_layout
             && sector_count >= 2
             && (sector_offsets[0] as usize == offset_table_size + sector_count * 4
                 || sector_offsets[sector_count] as u64
                     == file_info.compressed_size + 4 * sector_count as u64);
-        if file_info.has_sector_crc() {
+        if standard_crc_layout {
+            let start = sector_offsets[sector_count] as u64;
+            let stored = (crc_sector_end as u64).saturating_sub(start) as usize;
+            if stored > 0 && stored <= sector_count * 4 {
+                let mut buf = vec![0u8; stored];
+                self.reader.seek(SeekFrom::Start(file_info.file_pos + start))?;
+                self.reader.read_exact(&mut buf)?;
+                if stored < sector_count * 4 {
+                    // like any sector, it is compressed when stored smaller than its size
+                    buf = compression::decompress(&buf[1..], buf[0], sector_count * 4)?;
+                }
+                sector_crcs = Some(
+                    buf.chunks_exact(4)
+                        .map(|c| u32::from_le_bytes([c[0], c[1], c[2], c[3]]))
+                        .collect(),
+                );
+            }
+        } else if file_info.has_sector_crc() {
+            self.reader
+                .seek(SeekFrom::Start(file_info.file_pos + offset_table_size as u64))?;
             // The first sector offset tells us where the data starts
             // If it's large enough to accommodate a CRC table, then CRCs are present
             let first_data_offset = sector_offsets[0] as usize;
@@ -2438,6 +2467,21 @@ impl Archive {
             if file_info.is_encrypted() {
                 let sector_key = key.wrapping_add(i as u32);
                 decrypt_file_data(sector_data, sector_key);
+            }
+
+            // Standard layout: the checksum covers the stored sector (decrypted, still compressed)
+            if standard_crc_layout
+                && let Some(ref crcs) = sector_crcs
+                && crcs.get(i).copied().unwrap_or(0) != 0
+            {
+                let actual_crc = adler2::adler32_slice(sector_data);
+                if actual_crc != crcs[i] {
+                    return Err(Error::ChecksumMismatch {
+                        file: file_info.filename.clone(),
+                        expected: crcs[i],
+                        actual: actual_crc,
+                    });
+                }
             }
 
 
